@@ -341,11 +341,11 @@ var props = []PropSpec{
 	},
 	{
 		ID: "C13", Pkg: "./c13", Level: "other", NoNativeBuild: true,
-		Explanation: "SUFFICIENT CONDITION plus bounded schedule enumeration for pairs of operations. (a) What an SMT-based symbolic execution can decide about thread safety is the lock discipline the code relies on: every public operation of AggregationProcess (AggregateMsgByFlowKey with one and two records, ForAllExpiredFlowRecordsDo, ForAllRecordsDo, GetRecords with and without key, GetNumFlows, GetExpiryFromExpirePriorityQueue) is executed symbolically from bounded arbitrary states (0..1 flows quick, 0..2 thorough; symbolic records; deadlines passed or not; failing and succeeding callbacks) so that every feasible path, error paths included, is walked; every load, store and map operation on an object reachable from the process at entry is logged with the set of process mutexes held. The lockset rule is then applied across operations (each may run concurrently with every other and with itself): two accesses to one shared location, at least one a write, not both atomic, without a common lock = VIOLATION; also: a mutex still held at return, a mutex re-acquired while held, unlock of an unlocked mutex. With mutual exclusion trusted this gives atomic operations, hence linearizability with the lock acquisition as linearization point, and reduces 'no lost delta, no double export' to the sequential properties C05/C06. (b) Check_Linearizable runs PAIRS of operations in two goroutines under every interleaving of their synchronisation points (the scheduler choice at each mutex lock/unlock is a decision of the path explorer, bounded by a preemption budget) and compares the outcome with both sequential orders - this catches lost updates that are not data races (state captured under one critical section and used in another). NOT covered: more than two concurrent operations, preemption inside code between synchronisation points (covered by the lockset rule instead), the Go memory model, sync.RWMutex and the race detector are trusted; the worker pool enters only through the fact that every worker runs AggregateMsgByFlowKey.",
+		Explanation: "SUFFICIENT CONDITION plus bounded schedule enumeration for pairs of operations. (a) What an SMT-based symbolic execution can decide about thread safety is the lock discipline the code relies on: every public operation of AggregationProcess (AggregateMsgByFlowKey with one and two records, ForAllExpiredFlowRecordsDo, ForAllRecordsDo, GetRecords with and without key, GetNumFlows, GetExpiryFromExpirePriorityQueue) is executed symbolically from bounded arbitrary states (0..1 flows quick, 0..2 thorough; symbolic records; deadlines passed or not; failing and succeeding callbacks) so that every feasible path, error paths included, is walked; every load, store and map operation on an object reachable from the process at entry is logged with the set of process mutexes held. The lockset rule is then applied across operations (each may run concurrently with every other and with itself): two accesses to one shared location, at least one a write, not both atomic, without a common lock = VIOLATION; also: a mutex still held at return, a mutex re-acquired while held, unlock of an unlocked mutex. With mutual exclusion trusted this gives atomic operations, hence linearizability with the lock acquisition as linearization point, and reduces 'no lost delta, no double export' to the sequential properties C05/C06. (b) Check_Linearizable runs PAIRS of operations in two goroutines under every interleaving of their synchronisation points (the scheduler choice at each mutex lock/unlock is a decision of the path explorer, bounded by a preemption budget) and compares the outcome - the final state, the exports and what a query operation (GetNumFlows, GetRecords, GetExpiryFromExpirePriorityQueue) returned - with both sequential orders - this catches lost updates that are not data races (state captured under one critical section and used in another). NOT covered: more than two concurrent operations, preemption inside code between synchronisation points (covered by the lockset rule instead), the Go memory model, sync.RWMutex and the race detector are trusted; the worker pool enters only through the fact that every worker runs AggregateMsgByFlowKey.",
 		Assumptions: []string{"cooperative single-threaded execution; interleavings are not explored", "a breach is reported from the interpreter's access log (both access sites named); no native race-detector run is attempted"},
 		Harnesses: []HarnessSpec{
 			{Func: "Check_Operations", NoNative: true, Reach: []string{"operation-done"}, Tune: func(c *sym.Config, th bool) { c.ClockMode = "frozen" },
-				Bounds: "8 entry points x states of 0..1 (quick) / 0..2 (thorough) flows created by source-node, destination-node or intra-node records x symbolic counters and times x callbacks failing or not x deadlines passed or not"},
+				Bounds: "8 entry points x states of 0..1 (quick) / 0..2 (thorough) flows created by source-node, destination-node or intra-node records x symbolic counters and times x callbacks failing or not and modifying the record (reset of statistics, filled marks) or not x deadlines passed or not"},
 			{Func: "Check_Linearizable", NoNative: true, Reach: []string{"compared"},
 				Tune: func(c *sym.Config, th bool) {
 					c.ClockMode = "frozen"
@@ -355,15 +355,29 @@ var props = []PropSpec{
 						c.MaxPreemptions = 5
 					}
 				},
-				Bounds: "pairs of operations in two goroutines: {ingest source record || ingest destination record, ingest || GetNumFlows+GetRecords, ingest || expiry scan after the deadlines} x flow existing before or not; EVERY interleaving of their synchronisation points (mutex lock/unlock, WaitGroup) with at most 3 (quick) / 5 (thorough) preemptions; symbolic counters; result compared with both sequential orders"},
+				Bounds: "pairs of operations in two goroutines: {ingest source record || ingest destination record, ingest || GetNumFlows, ingest || GetRecords, ingest || GetExpiryFromExpirePriorityQueue, ingest || expiry scan after the deadlines} x flow existing before or not; EVERY interleaving of their synchronisation points (mutex lock/unlock, WaitGroup) with at most 3 (quick) / 5 (thorough) preemptions; symbolic counters; result compared with both sequential orders"},
 		},
 	},
 	{
 		ID: "C14", Pkg: "./c14", ReplayPkg: "./cmd/rc14", Level: "other",
-		Explanation: "PARTIAL. Decidable part: (1) lockset over the bodies each goroutine of an exporting process runs - application: SendSet (template, data, refusal paths) and NewTemplateID; UDP refresher: sendRefreshedTemplates (with failing and succeeding writes); TCP checker: checkConnToCollector followed by closeConnToCollector; anyone, repeatedly: CloseConnToCollector - every access to a field of the process logged with the mutexes held, conflicting accesses from roles that can run concurrently without a common lock and not both atomic = VIOLATION (the harness's fake net.Conn stands for a concurrency-safe socket and is excluded); (2) sequential contracts with symbolic contents: after j template sends one refresh writes exactly j messages, one Write each, byte-identical to the reference encoding of the original templates and never advancing the sequence number; after the peer closed (Read returns io.EOF) the check reports it, the connection is closed exactly once, a later SendSet returns an error and writes nothing; closing twice is a no-op; after close neither SendSet nor a refresh writes a byte. (3) concurrent close from two goroutines under every interleaving of their synchronisation points within a preemption bound. NOT decidable here and not claimed: the ticker loops themselves (closures inside InitExportingProcess), 'within the check interval', real timing and real scheduling.",
-		Assumptions: []string{"cooperative single-threaded execution; interleavings are not explored; the race detector and Go memory model are trusted", "net.Conn contract: Write delivers all bytes or errors; after Close, Write/Read error; Read returns io.EOF when the peer closed"},
+		Explanation: "PARTIAL. Decided: (1) lockset over the bodies each goroutine of an exporting process runs - application: SendSet (template, data, refusal paths) and NewTemplateID; UDP refresher: sendRefreshedTemplates (with failing and succeeding writes), and the refresh goroutine of the real InitExportingProcess on the path where its write fails and it closes the process; TCP checker: checkConnToCollector followed by closeConnToCollector; anyone, repeatedly: CloseConnToCollector - every access to a field of the process logged with the mutexes held, conflicting accesses from roles that can run concurrently without a common lock and not both atomic = VIOLATION (the harness's fake net.Conn stands for a concurrency-safe socket and is excluded); (2) sequential contracts with symbolic contents: after j template sends one refresh writes exactly j messages, one Write each, byte-identical to the reference encoding of the original templates and never advancing the sequence number; after the peer closed (Read returns io.EOF) the check reports it, the connection is closed exactly once, a later SendSet returns an error and writes nothing; closing twice is a no-op; after close neither SendSet nor a refresh writes a byte; (3) concurrent close from two goroutines under every interleaving of their synchronisation points within a preemption bound; (4) the real InitExportingProcess with its background goroutine (net.Dial returns an in-memory connection; the ticker ticks when the harness says the interval has passed): a tick concurrent with a data send on a healthy connection (every Write is one whole well-formed message, the data message and - UDP - the refreshed template, never intermixed), a failing write (UDP) or closed peer (TCP) noticed at the tick, later sends failing, Close twice returning with no goroutine of the process left and no byte written afterwards - under every interleaving within a preemption bound; (5) virtual time: a template sent at time 0 is retransmitted when one refresh interval has passed and again after the next, whatever the application sends in between. NOT decided and not claimed: real timing and real scheduling (the interval is a virtual quantity), preemption inside code between synchronisation points other than through the lockset rule, the race detector itself.",
+		Assumptions: []string{"lockset and contract harnesses: cooperative single-threaded execution; lifecycle and concurrent-close harnesses: interleavings of synchronisation points explored within the stated preemption bound; the race detector and Go memory model are trusted", "net.Conn contract: Write delivers all bytes or errors; after Close, Write/Read error; Read returns io.EOF when the peer closed", "time.Ticker: ticks only when the harness lets its interval pass; one tick is buffered"},
 		Harnesses: []HarnessSpec{
-			{Func: "Check_Lockset", NoNative: true, Reach: []string{"entry-point-done"}, Tune: func(c *sym.Config, th bool) { c.ClockMode = "wall" }, Bounds: "6 entry points x 0..2 templates already sent x write/peer outcomes"},
+			{Func: "Check_Lockset", NoNative: true, Reach: []string{"entry-point-done", "real-background"}, Tune: func(c *sym.Config, th bool) { c.ClockMode = "wall" }, Bounds: "6 entry points x 0..2 templates already sent x write/peer outcomes; plus the refresh goroutine of the real InitExportingProcess on the path where its write fails and it closes the process itself, and the application's next SendSet afterwards"},
+			{Func: "Check_RefreshInterval", NoNative: true, Reach: []string{"intervals", "several-templates"}, Tune: func(c *sym.Config, th bool) { c.ClockMode = "wall" },
+				Bounds: "virtual time for the refresh ticker of the real InitExportingProcess (udp, interval 10 s): a template at time 0, then 0..2 further sends (templates or data) 3 s apart, then the rest of the interval, then a second interval; cooperative scheduling"},
+			{Func: "Check_Lifecycle", NoNative: true, Reach: []string{"healthy", "closed-by-background", "lifecycle-done"},
+				Tune: func(c *sym.Config, th bool) {
+					c.ClockMode = "wall"
+					c.ExploreSchedules = true
+					c.MaxPreemptions = 2
+					if th {
+						c.MaxPreemptions = 3
+					}
+					c.HangIsViolation = true
+					c.InstrBudget = 3_000_000
+				},
+				Bounds: "the real InitExportingProcess (udp / tcp; net.Dial returns an in-memory connection; the ticker fires when the harness says the interval has passed) x {healthy connection, failing write (udp) / collector closed (tcp)}: one template, then a tick concurrent with a data send, then Close twice and a further tick; every interleaving of the synchronisation points with at most 2 (quick) / 3 (thorough) preemptions"},
 			{Func: "Check_Contracts", Reach: []string{"refreshed", "peer-closed", "closed-twice"}, Tune: func(c *sym.Config, th bool) { c.ClockMode = "wall" }, Bounds: "0..3 templates sent, 0..2 data records sent, then one refresh / peer close + check + close / double close"},
 			{Func: "Check_ConcurrentClose", NoNative: true, Reach: []string{"both-returned"},
 				Tune: func(c *sym.Config, th bool) {
